@@ -56,7 +56,10 @@ def process(src, only, nproc):
         out["confirmed"] = (r0.returncode == 0 and r1.returncode != 0 and "172 passed" in out["suite_with_patch"])
         out["checks"] = {}
         have = claimed()
-        for pid in RELATED.get(prop, [prop]):
+        rel = RELATED.get(prop, [prop])
+        if "--own" in sys.argv:
+            rel = [prop] + (["C13"] if name == "C15_r3_b" else [])
+        for pid in rel:
             if pid not in have or (only and pid not in only):
                 continue
             t = time.time()
@@ -95,6 +98,9 @@ def main():
             dirs += sorted(os.path.join(a, d) for d in os.listdir(a) if os.path.exists(os.path.join(a, d, "patch.diff")))
     os.makedirs("/tmp/vseed", exist_ok=True)
     par = 3
+    for a in sys.argv[1:]:
+        if a.startswith("--par="):
+            par = int(a.split("=")[1])
     with ThreadPoolExecutor(par) as ex:
         for name, out in ex.map(lambda d: process(d, only, max(2, 16 // par)), dirs):
             src = [d for d in dirs if os.path.basename(d.rstrip("/")) == name][0]
